@@ -8,7 +8,9 @@ step-level transition system (`Model/SyncMapConc.lean`), for any number of gorou
  (a) the callback is called at most once per key                                — `conc_range_once`, `conc_range_once_loop`;
  (b) only with a value the key held at some moment during the call              — `conc_range_value` (and `conc_range_skip`);
  (c) the snapshot the loop iterates over contains every key present at the moment it is taken
-                                                                                — `conc_range_snapshot`, `conc_range_todo_held`.
+                                                                                — `conc_range_snapshot`, `conc_range_todo_held`;
+     and, as a property of traces: a key that has the value v in EVERY state from the snapshot to the return of the call is
+     passed to f with v                                                         — `conc_range_untouched` (`Props/C04rangeTrace.lean`).
 
 The model of `Range`: `rangeRead1` → (`rangeLock` → `rangeRead2` → `rangeStore dm`) → loop `rangePick todo acc`
 --pick `(k', e')`--> `rangeLoad (aerase k' todo) acc k' e'` → `rangeNext todo' acc'` … → `ret (.pairs acc)`, where `acc` is
@@ -81,7 +83,8 @@ step; hence EVERY KEY PRESENT AT THAT MOMENT IS A KEY OF THE SNAPSHOT, i.e. will
 Not claimed: "a key present and untouched for the whole call is passed to `f` with that value".  That reading follows
 from this lemma (the key is in the snapshot), `conc_range_todo_held` (its pair stays `read.m[k]` unless the entry
 dies, and an entry holding a value is not dead) and `conc_range_value` (the value passed is the key's current value),
-but it quantifies over the states of one call, i.e. is a property of traces; it is not stated as a theorem here. -/
+but it quantifies over the states of one call, i.e. is a property of traces: it is `C04.conc_range_untouched`
+(`Props/C04rangeTrace.lean`). -/
 theorem conc_range_snapshot {s : State K V} {a : AState K V} (hR : R s a) (t : Tid)
     (hent : (s.pc t = .rangeRead1 ∧ s.sh.amended = false) ∨ (s.pc t = .rangeRead2 ∧ s.sh.amended = false) ∨
       ∃ dm, s.pc t = .rangeStore dm)
